@@ -16,7 +16,7 @@ use std::path::PathBuf;
 #[cfg(not(roughenough_verif))]
 use std::thread;
 #[cfg(roughenough_verif)]
-use verif_std::thread;
+use verif_std::{thread, *};
 use std::time::Duration;
 
 use data_encoding::HEXLOWER_PERMISSIVE;
